@@ -1,13 +1,33 @@
 /-
-C14 — preload on/off and chosencases: the http providers of `Pandora.Model.C08` over a file of tagged entries.
-`lib/confutil/chosen_cases_filter.go IsChosenCase` is `isChosen`; the streaming path applies it in `fullScan`
-(runFullScan: after Decoder.Scan, before the send), the preloaded path in `httpRun` (loadAmmo: after LoadAmmo,
-before the cyclic replay).
+C14 — preload on/off and chosencases: the http providers (components/providers/http) over a file of tagged entries.
+
+Go sites mirrored (REPAIRED behaviour: c2aa5a1, 8ec6c57 and b8504d9 = fixes/C14-nomatch-no-ammo.diff are in /repo):
+
+  lib/confutil/chosen_cases_filter.go IsChosenCase                  `isChosen`
+  components/providers/http/decoders/{uri,uripost,raw}.go Scan      `Model.C08.scanStream .eofCheck`   (shared machine)
+  components/providers/http/decoders/jsonline.go Scan / scanAmmos   `Model.C08.scanStream .topCheck` / `Model.C08.scanArr`
+  components/providers/http/decoders/decoder.go PassNum             `passNum` argument of `fullScan`
+  components/providers/http/decoders/decoder.go LoadAmmo            `Model.C08.loadAmmo`
+  components/providers/http/provider.go NewProvider                 the decoder gets Limit = 0 (`scan ⟨0, passes⟩`)
+  components/providers/http/provider/provider.go runFullScan        `fullScan`   — filter AFTER Decoder.Scan, own delivered-counter,
+                                                                     "a complete pass delivered nothing ⇒ ErrNoAmmo"
+  components/providers/http/provider/provider.go loadAmmo           the `filter chosen` in `httpRun` — filter BEFORE the cyclic replay
+  components/providers/http/provider/provider.go runPreloaded       `Model.C08.runPreloaded`
+  components/providers/http/provider/provider.go Run                `httpRun` (sentinels of the preloaded path ↦ nil; sink closed)
+
+The decoder machines, `LoadAmmo` and the cyclic replay loop are the ones of `Pandora.Model.C08` (imported, not
+edited); what C14 adds is the chosen-case filter at the place where each path applies it, `runFullScan` with the
+no-ammo ending, and the two earlier revisions of the code (`Orig`, `Head`) that the counterexample theorems refute.
+
+Cancellation: `cancelAt = some c` = the context is cancelled as soon as `c` ammo have been delivered (that is how
+the harness cuts unbounded runs), see Model/C08.  Loops carry fuel; `none` = not finished within the fuel.
 -/
 import Pandora.Model.C08
 
 namespace Pandora.Model.C14
 open Pandora.Model.C08
+
+deriving instance DecidableEq for Pandora.Model.C08.Outcome
 
 structure Entry where
   id : Nat          -- position in the file
@@ -21,22 +41,177 @@ def isChosen (cases : List String) (e : Entry) : Bool :=
 def mkFile (tags : List String) : List Entry :=
   (List.range tags.length).zipWith (fun i t => ⟨i, t⟩) tags
 
-/-- fuel for a file from which nothing is chosen: `passes` complete scans (the streaming path ends after them;
-with `passes = 0` it never ends) -/
-def fuelNoMatch (passes n : Nat) : Nat := (passes + 1) * (n + 1) + 2
+/-- the four ammo formats of the http provider; http/json files come in two shapes -/
+inductive Fmt where
+  | uri | uripost | raw | jsonLines | jsonArray
+  deriving DecidableEq, Repr, Inhabited
 
-/-- `Provider.Run` of the http provider of format `k` over `file` with a chosen-predicate.  `none` = still
-running when the fuel (enough for every run that ends) is used up. -/
-def runWith {α : Type} (k : Kind) (preload : Bool) (file : List α) (chosen : α → Bool) (b : Bounds)
-    (cancelAt : Option Nat) : Option (Outcome α) :=
-  let f := (file.filter chosen).length
-  if f = 0 then runFuel ⟨k, preload, b, cancelAt⟩ file chosen (fuelNoMatch b.passes file.length)
-  else match target b.limit b.passes f cancelAt with
+/-- `NewProvider` fails for http/json on a file without any JSON token (decoders.isArray: EOF), in both modes;
+every other file of entries is accepted. -/
+def constructs (k : Fmt) (n : Nat) : Bool := !(k == .jsonLines && n == 0)
+
+/-! ## runFullScan (streaming path) -/
+
+/-- `runFullScan` after 8ec6c57 + b8504d9 (C14-nomatch-no-ammo): `out.length` is its `ammoNum` (delivered ammo),
+`passNum s` is `Decoder.PassNum()`.  The filter is applied to what `Scan` returned, i.e. after the decoder has
+counted the entry. -/
+def fullScan {σ α : Type} (scan : σ → ScanRes × σ) (passNum : σ → Nat) (file : List α) (chosen : α → Bool)
+    (limit : Nat) (cancelAt : Option Nat) : Nat → σ → List α → Option (List α × RunRes)
+  | 0, _, _ => none
+  | fuel + 1, s, out =>
+    if cancelled cancelAt out.length then some (out, .canceled)
+    else if limit ≠ 0 ∧ limit ≤ out.length then some (out, .nil)
+    else if out.length = 0 ∧ 0 < passNum s then some (out, .errNoAmmo)
+    else match scan s with
+      | (.ammo i, s') =>
+        match file[i]? with
+        | some a =>
+          if chosen a then fullScan scan passNum file chosen limit cancelAt fuel s' (out ++ [a])
+          else fullScan scan passNum file chosen limit cancelAt fuel s' out
+        | none => some (out, .errOther)
+      | (.errPass, _) => if out.length = 0 then some (out, .errNoAmmo) else some (out, .nil)
+      | (.errLimit, _) => some (out, .nil)
+      | (.errNoAmmo, _) => some (out, .errNoAmmo)
+      | (.unexpected, _) => some (out, .errOther)
+
+/-- `Provider.Run`: `defer close(p.Sink)` on every path.  Preload: LoadAmmo (whole file), filter, cyclic replay,
+sentinels ↦ nil.  Streaming: `fullScan` over a decoder constructed with Limit = 0. -/
+def httpRun {σ α : Type} (scan : Bounds → σ → ScanRes × σ) (passNum : σ → Nat) (init : σ) (file : List α)
+    (chosen : α → Bool) (preload : Bool) (b : Bounds) (cancelAt : Option Nat) (fuel : Nat) : Option (Outcome α) :=
+  if preload then
+    match loadAmmo scan file fuel init [] with
     | none => none
-    | some t => runFuel ⟨k, preload, b, cancelAt⟩ file chosen (fuelFor t file.length f)
+    | some (.error e) => some ⟨[], e, true⟩
+    | some (.ok ammos) =>
+      match runPreloaded (ammos.filter chosen) b cancelAt fuel with
+      | none => none
+      | some (out, e) => some ⟨out, mapSentinel e, true⟩
+  else
+    match fullScan (scan ⟨0, b.passes⟩) passNum file chosen b.limit cancelAt fuel init [] with
+    | none => none
+    | some (out, e) => some ⟨out, e, true⟩
 
-def run (k : Kind) (preload : Bool) (tags : List String) (cases : List String) (b : Bounds)
+def runFuel {α : Type} (k : Fmt) (preload : Bool) (file : List α) (chosen : α → Bool) (b : Bounds)
+    (cancelAt : Option Nat) (fuel : Nat) : Option (Outcome α) :=
+  match k with
+  | .uri | .uripost | .raw =>
+    httpRun (fun b => scanStream .eofCheck b file.length) (·.passNum) Dec.init file chosen preload b cancelAt fuel
+  | .jsonLines =>
+    httpRun (fun b => scanStream .topCheck b file.length) (·.passNum) Dec.init file chosen preload b cancelAt fuel
+  | .jsonArray =>
+    httpRun (fun b => scanArr b file.length) (·.passNum) ArrDec.init file chosen preload b cancelAt fuel
+
+/-- fuel for a file from which nothing is chosen (or an empty file): one scan of the file, one more entry, the check -/
+def fuelNoMatch (n : Nat) : Nat := n + 3
+
+/-- fuel that is enough for every run that ends; `none` = the run has no bound and is never cancelled -/
+def fuelOf (n f : Nat) (b : Bounds) (cancelAt : Option Nat) : Option Nat :=
+  if f = 0 then some (fuelNoMatch n)
+  else (target b.limit b.passes f cancelAt).map fun t => fuelFor t n f
+
+/-- `Provider.Run` of the http provider of format `k` over `file` with a chosen-predicate. -/
+def runWith {α : Type} (k : Fmt) (preload : Bool) (file : List α) (chosen : α → Bool) (b : Bounds)
+    (cancelAt : Option Nat) : Option (Outcome α) :=
+  match fuelOf file.length (file.filter chosen).length b cancelAt with
+  | none => none
+  | some fuel => runFuel k preload file chosen b cancelAt fuel
+
+def run (k : Fmt) (preload : Bool) (tags : List String) (cases : List String) (b : Bounds)
     (cancelAt : Option Nat) : Option (Outcome Entry) :=
   runWith k preload (mkFile tags) (isChosen cases) b cancelAt
+
+/-! ## earlier revisions of the same code (refuted by `C14_*_counterexample`) -/
+
+/- /repo before c2aa5a1 and 8ec6c57: the streaming decoder is constructed with the configured Limit and counts
+every entry it READS; the preloaded path returns its sentinels as errors. -/
+namespace Orig
+
+def fullScan {σ α : Type} (scan : σ → ScanRes × σ) (file : List α) (chosen : α → Bool) (cancelAt : Option Nat) :
+    Nat → σ → List α → Option (List α × RunRes)
+  | 0, _, _ => none
+  | fuel + 1, s, out =>
+    if cancelled cancelAt out.length then some (out, .canceled)
+    else match scan s with
+      | (.ammo i, s') =>
+        match file[i]? with
+        | some a =>
+          if chosen a then fullScan scan file chosen cancelAt fuel s' (out ++ [a])
+          else fullScan scan file chosen cancelAt fuel s' out
+        | none => some (out, .errOther)
+      | (.errLimit, _) => some (out, .nil)
+      | (.errPass, _) => some (out, .nil)
+      | (.errNoAmmo, _) => some (out, .errNoAmmo)
+      | (.unexpected, _) => some (out, .errOther)
+
+def httpRun {σ α : Type} (scan : Bounds → σ → ScanRes × σ) (init : σ) (file : List α) (chosen : α → Bool)
+    (preload : Bool) (b : Bounds) (cancelAt : Option Nat) (fuel : Nat) : Option (Outcome α) :=
+  if preload then
+    match loadAmmo scan file fuel init [] with
+    | none => none
+    | some (.error e) => some ⟨[], e, true⟩
+    | some (.ok ammos) =>
+      match runPreloaded (ammos.filter chosen) b cancelAt fuel with
+      | none => none
+      | some (out, e) => some ⟨out, e, true⟩
+  else
+    match fullScan (scan b) file chosen cancelAt fuel init [] with
+    | none => none
+    | some (out, e) => some ⟨out, e, true⟩
+
+def runFuel {α : Type} (k : Fmt) (preload : Bool) (file : List α) (chosen : α → Bool) (b : Bounds)
+    (cancelAt : Option Nat) (fuel : Nat) : Option (Outcome α) :=
+  match k with
+  | .uri | .uripost | .raw => httpRun (fun b => scanStream .eofCheck b file.length) Dec.init file chosen preload b cancelAt fuel
+  | .jsonLines => httpRun (fun b => scanStream .topCheck b file.length) Dec.init file chosen preload b cancelAt fuel
+  | .jsonArray => httpRun (fun b => scanArr b file.length) ArrDec.init file chosen preload b cancelAt fuel
+
+end Orig
+
+/- /repo a3063a3 (with c2aa5a1 and 8ec6c57, before b8504d9 = C14-nomatch-no-ammo): limit counts delivered ammo, but a
+file from which nothing is chosen is rescanned until `passes` is reached (for ever with passes = 0) and then ends
+with nil, while the preloaded path fails with ErrNoAmmo. -/
+namespace Head
+
+def fullScan {σ α : Type} (scan : σ → ScanRes × σ) (file : List α) (chosen : α → Bool) (limit : Nat)
+    (cancelAt : Option Nat) : Nat → σ → List α → Option (List α × RunRes)
+  | 0, _, _ => none
+  | fuel + 1, s, out =>
+    if cancelled cancelAt out.length then some (out, .canceled)
+    else if limit ≠ 0 ∧ limit ≤ out.length then some (out, .nil)
+    else match scan s with
+      | (.ammo i, s') =>
+        match file[i]? with
+        | some a =>
+          if chosen a then fullScan scan file chosen limit cancelAt fuel s' (out ++ [a])
+          else fullScan scan file chosen limit cancelAt fuel s' out
+        | none => some (out, .errOther)
+      | (.errLimit, _) => some (out, .nil)
+      | (.errPass, _) => some (out, .nil)
+      | (.errNoAmmo, _) => some (out, .errNoAmmo)
+      | (.unexpected, _) => some (out, .errOther)
+
+def httpRun {σ α : Type} (scan : Bounds → σ → ScanRes × σ) (init : σ) (file : List α) (chosen : α → Bool)
+    (preload : Bool) (b : Bounds) (cancelAt : Option Nat) (fuel : Nat) : Option (Outcome α) :=
+  if preload then
+    match loadAmmo scan file fuel init [] with
+    | none => none
+    | some (.error e) => some ⟨[], e, true⟩
+    | some (.ok ammos) =>
+      match runPreloaded (ammos.filter chosen) b cancelAt fuel with
+      | none => none
+      | some (out, e) => some ⟨out, mapSentinel e, true⟩
+  else
+    match fullScan (scan ⟨0, b.passes⟩) file chosen b.limit cancelAt fuel init [] with
+    | none => none
+    | some (out, e) => some ⟨out, e, true⟩
+
+def runFuel {α : Type} (k : Fmt) (preload : Bool) (file : List α) (chosen : α → Bool) (b : Bounds)
+    (cancelAt : Option Nat) (fuel : Nat) : Option (Outcome α) :=
+  match k with
+  | .uri | .uripost | .raw => httpRun (fun b => scanStream .eofCheck b file.length) Dec.init file chosen preload b cancelAt fuel
+  | .jsonLines => httpRun (fun b => scanStream .topCheck b file.length) Dec.init file chosen preload b cancelAt fuel
+  | .jsonArray => httpRun (fun b => scanArr b file.length) ArrDec.init file chosen preload b cancelAt fuel
+
+end Head
 
 end Pandora.Model.C14
